@@ -98,6 +98,15 @@ def judge_all(ctx, events, scenario_of, module="KeepstoreGCJudge", cfg="Judge_C0
     ctx.traces_validated += len(traces) - len(rejected)
     for rj in rejected:
         head = rj["trace"][0]
+        t, off = rj["trace"], rj["offset"]
+        rev = t[off - 1] if 0 < off <= len(t) else {}
+        op = rev.get("op")
+        if rev.get("ev") == "ret":
+            op = next((e.get("op") for e in reversed(t[:off - 1]) if e.get("ev") == "call" and e.get("id") == rev.get("id")), None)
+        if rev.get("ev") == "index" or (rev.get("ev") in ("call", "ret") and op in ("pull", "index")):
+            # not part of C04's statement (pull-worker writes, index listing): never a violation of C04
+            ctx.drift.append("beyond C04: contract rejected %s of scn %s" % (json.dumps(rev)[:160], head.get("scn")))
+            continue
         extra = {"hist_class": hist_class(head, rj["trace"], rj["offset"]) if head.get("mode") == "random" else "none"}
         ctx.classify(rj, lambda h, extra=extra: dict(scenario_of(h), **extra))
     return len(traces) - len(rejected)
@@ -290,7 +299,17 @@ def run(ctx):
         raise vlib.InfraError("a scenario took more than a third of a time unit; virtual time is unreliable")
 
     # JUDGE
-    judge_all(ctx, events, scenario_of)
+    # The `index` events (GET /index lists only complete blocks) and the pull-worker writes are growth of the
+    # specification beyond C04's statement (the index clause is C02's and is judged strictly by checks/C02.py).
+    # They are evaluated here as DRIFT only and taken out of the traces, so that C04's own clauses are judged on
+    # the whole of every trace and a rejection can never be printed as a violation of C04.
+    bad_index = [ev for ev in events if ev.get("ev") == "index" and any(e != "complete" for e in ev.get("entries", []))]
+    ctx.extra["index_events"] = sum(1 for ev in events if ev.get("ev") == "index")
+    ctx.extra["index_events_rejected"] = len(bad_index)
+    if bad_index:
+        ctx.drift.append("beyond C04 (C02's index clause): %d GET /index responses listed something that is not a "
+                         "complete block, first: %s" % (len(bad_index), json.dumps(bad_index[0])[:200]))
+    judge_all(ctx, [ev for ev in events if ev.get("ev") != "index"], scenario_of)
 
     # evidence
     reached = set()
